@@ -5,6 +5,16 @@ C18 tables, re-extracted from the CURRENT /repo tree on every run:
   utils.get_cwidth       : widths of the characters the C18 harness uses in width cases
                            (wcwidth is runtime, a parameter of the model)
 
+  str.isprintable        : code point ranges of the running interpreter (repr() of a str escapes the
+                           non-printable characters; a parameter of the model)
+  module / class / instance state inventory of the anchored modules: every module-level object that
+                           is not a function, class, module, typing construct or immutable constant,
+                           every cached function, every class-level container, the instance
+                           attributes of a fresh HTML / ANSI object.  The session model
+                           (Model/C18Sess.lean) says that nothing is kept between calls; this
+                           inventory is pinned in Props/C18Sess.lean, so a cache added anywhere in
+                           these modules breaks the build at the pin.
+
 Written to lean/Ptk/Gen/C18.lean.
 """
 from __future__ import annotations
@@ -14,6 +24,88 @@ import gen_tables as G
 # characters used by the width cases of harness/c18.py (default width for all others: 1)
 WIDTH_CHARS = ["a", "b", "x", " ", "\n", "\t", "\x00", "\x01", "\x1b", "\x7f", "\x9b", "\u4e16", "\u754c",
                "\xe9", "\u0301", "\u200b", "\u3000", "\U0001F600", "\uff71", "\xad"]
+
+
+STATE_MODULES = ["prompt_toolkit.formatted_text.html", "prompt_toolkit.formatted_text.ansi",
+                 "prompt_toolkit.formatted_text.base", "prompt_toolkit.formatted_text.utils",
+                 "prompt_toolkit.formatted_text.pygments", "prompt_toolkit.layout.utils"]
+
+
+def state_inventory() -> list[str]:
+    """what the anchored modules could keep between two calls (see the module docstring)"""
+    import importlib
+    import types
+
+    immut = (bool, int, float, str, bytes, tuple, frozenset, type(None))
+
+    def stateful(v):
+        if isinstance(v, (types.ModuleType, type, types.FunctionType, types.BuiltinFunctionType,
+                          types.MethodType, staticmethod, classmethod, property)):
+            return False
+        if isinstance(v, immut):
+            return False
+        return type(v).__module__ not in ("typing", "typing_extensions", "__future__")
+
+    def cached(v):
+        return callable(v) and any(hasattr(v, a) for a in ("cache_info", "cache_clear", "__wrapped__"))
+
+    inv = []
+    for m in STATE_MODULES:
+        mod = importlib.import_module(m)
+        short = m.split("prompt_toolkit.")[1]
+        for name, v in sorted(vars(mod).items()):
+            if name.startswith("__"):
+                continue
+            own = getattr(v, "__module__", m) == m
+            if isinstance(v, (type, types.FunctionType)) and not own:
+                continue        # imported class / function
+            if cached(v):
+                inv.append(f"{short}.{name}:cached")
+            elif stateful(v):
+                inv.append(f"{short}.{name}:{type(v).__name__}")
+            if isinstance(v, type):
+                for an, av in sorted(vars(v).items()):
+                    f = av.__func__ if isinstance(av, (staticmethod, classmethod)) else av
+                    if cached(f):
+                        inv.append(f"{short}.{name}.{an}:cached")
+                    elif not an.startswith("__") and stateful(av):
+                        inv.append(f"{short}.{name}.{an}:{type(av).__name__}")
+    from prompt_toolkit.formatted_text import ANSI, HTML
+
+    inv.append("instance HTML:" + ",".join(sorted(vars(HTML("x")))))
+    inv.append("instance ANSI:" + ",".join(sorted(vars(ANSI("x")))))
+    return inv
+
+
+def ansi_param_expr() -> str:
+    """source text of the expression `_parse_corot` appends to `params` (the int() call)"""
+    import ast
+    import inspect
+
+    from prompt_toolkit.formatted_text import ansi
+    src = inspect.getsource(ansi)
+    found = []
+    for node in ast.walk(ast.parse(src)):
+        if (isinstance(node, ast.Call) and isinstance(node.func, ast.Attribute) and node.func.attr == "append"
+                and isinstance(node.func.value, ast.Name) and node.func.value.id == "params" and node.args):
+            found.append(ast.unparse(node.args[0]))
+    return " | ".join(found)
+
+
+def replace_chain(fn) -> list[tuple[str, str]]:
+    """the `.replace(a, b)` calls with constant arguments in the body of `fn`, in the order in which
+    they are applied (`x.replace(..).replace(..)`: the inner call ends first)"""
+    import ast
+    import inspect
+    import textwrap
+
+    out = []
+    for node in ast.walk(ast.parse(textwrap.dedent(inspect.getsource(fn)))):
+        if (isinstance(node, ast.Call) and isinstance(node.func, ast.Attribute) and node.func.attr == "replace"
+                and len(node.args) == 2
+                and all(isinstance(a, ast.Constant) and isinstance(a.value, str) for a in node.args)):
+            out.append((node.end_lineno, node.end_col_offset, node.args[0].value, node.args[1].value))
+    return [(a, b) for _, _, a, b in sorted(out)]
 
 
 def generate() -> None:
@@ -32,5 +124,31 @@ def generate() -> None:
     body += "def cwTable : List (Nat × Nat) := [" + ", ".join(
         f"({ord(c)}, {get_cwidth(c)})" for c in WIDTH_CHARS) + "]\n\n"
     body += "def cw (c : Char) : Nat := ((cwTable.find? fun p => p.1 == c.toNat).map (·.2)).getD 1\n"
+    body += "\n/-- inclusive code point ranges with `str.isprintable()` (running interpreter) -/\n"
+    body += "def isPrintableRanges : List (Nat × Nat) := " + G.lranges(G.ranges(str.isprintable)) + "\n\n"
+    body += ("def isPrintable (c : Char) : Bool := isPrintableRanges.any fun (a, b) => "
+             "a ≤ c.toNat && c.toNat ≤ b\n\n")
+    import sys as _sys
+    lim = _sys.get_int_max_str_digits() if hasattr(_sys, "get_int_max_str_digits") else 0
+    body += "/-- `sys.get_int_max_str_digits()` of the running interpreter (`none` = no limit) -/\n"
+    body += "def intMaxStrDigits : Option Nat := " + (f"some {lim}" if lim else "none") + "\n\n"
+    from prompt_toolkit.formatted_text import html as _html_mod
+
+    def cps(s):
+        return "[" + ", ".join(str(ord(c)) for c in s) + "]"
+
+    def chain(fn):
+        return "[" + ", ".join(f"({cps(a)}, {cps(b)})" for a, b in replace_chain(fn)) + "]"
+
+    body += "/-- the `.replace(a, b)` calls of `html_escape`, in application order (code points) -/\n"
+    body += "def htmlEscapeReplacements : List (List Nat × List Nat) := " + chain(_html_mod.html_escape) + "\n\n"
+    body += "/-- the `.replace(a, b)` calls of `ansi_escape`, in application order (code points) -/\n"
+    body += "def ansiEscapeReplacements : List (List Nat × List Nat) := " + chain(ansi.ansi_escape) + "\n\n"
+    body += "/-- `_XML_ILLEGAL_CHARS_RE.pattern` (code points) -/\n"
+    body += "def xmlIllegalPattern : List Nat := " + cps(_html_mod._XML_ILLEGAL_CHARS_RE.pattern) + "\n\n"
+    body += "/-- the expression `ANSI._parse_corot` appends to `params` (ast.unparse of the source) -/\n"
+    body += "def ansiParamExpr : String := " + G.lstr(ansi_param_expr()) + "\n\n"
+    body += "/-- what the anchored modules could keep between two calls (see harness/gen_c18.py) -/\n"
+    body += "def moduleState : List String := [" + ", ".join(G.lstr(x) for x in state_inventory()) + "]\n"
     body += "\nend Ptk.Gen.C18\n"
     G.write("C18.lean", body)
